@@ -1,6 +1,7 @@
 package h
 
 import (
+	"archive/zip"
 	"bytes"
 	"crypto"
 	"crypto/x509"
@@ -93,6 +94,22 @@ func c09Splits(r *core.Run) {
 		c.Mod, c.SigType = "jar", "jar"
 		c.File = fmt.Sprintf("big%d.jar", r.No)
 		c.Input = makeBigJar(t)
+	}
+	if c.Mod == "appx" && t.Chance(1, 2, "appx-extra") {
+		// members whose deflate streams end like those of real packaging tools
+		if v, err := appxWithExtraMembers(c.Input, t); err == nil {
+			c.Input = v
+			r.Probe("appx-with-flushed-deflate-members")
+			if os.Getenv("VERIF_DEBUG_APPX") != "" {
+				zr, _ := zip.NewReader(bytes.NewReader(v), int64(len(v)))
+				for _, f := range zr.File {
+					println("ZZAPPX", f.Name, f.UncompressedSize64, f.CompressedSize64)
+				}
+			}
+		} else {
+			r.Notes["internal_error"] = "appx variant: " + err.Error()
+			return
+		}
 	}
 	if c.Mod == "bigapk" {
 		// the APK v2 scheme digests the archive in 1 MiB chunks
